@@ -42,6 +42,7 @@ extern uint32_t __verif_hn;     /* element count of the tuple / closure under pr
 extern int      __verif_hkidrc;  /* bound at lvl 2: the child at the ghost index exists and is a heap-tagged non-NULL value */
 extern void    *__verif_hstore;  /* bound at lvl 2: the element store of the object under proof */
 extern uint32_t __verif_hstn;    /* bound at lvl 2: the number of entries of that store */
+extern uint32_t __verif_krc0;    /* bound at lvl 2: entry value of the reference count of that child */
 extern uint32_t __verif_rc0;    /* entry value of the reference count of the object under consideration
                                    (__CPROVER_old() snapshots are taken unconditionally, i.e. also when v is a scalar
                                    and the pointer is junk: the entry value is bound by a requires clause instead) */
@@ -117,6 +118,7 @@ __CPROVER_ensures(IS_RC(v) ==> HDR(v)->ref_count == __verif_rc0 + 1u);
 
 #define REL_L1(v) (__verif_h.lvl >= 1 && IS_RC(v))          /* header materialised */
 #define REL_L2(v) (__verif_h.lvl == 2 && IS_RC(v))          /* the object under proof */
+#define REL_RC0 ((__verif_h.lvl == 2) ? __verif_rc0 : __verif_krc0)      /* entry count of the argument's object */
 #define REL_SIZE ((__verif_h.lvl == 2) ? (size_t)(REL_OBJ_SIZE) : sizeof(VmHeapHeader))
 #if REL_CONTAINER
 #define REL_KID(v) (REL_STORE(v)[__verif_hk])
@@ -133,11 +135,11 @@ void vm_release(VmHeap *heap, NanoValue v)
 __CPROVER_requires(VERIF_FRESH(heap, sizeof(VmHeap)) && HEAP_OK(heap))
 __CPROVER_requires(VERIF_FRESH(heap->intern_table, (size_t)heap->intern_capacity * sizeof(VmString *)))
 __CPROVER_requires(__verif_h.lvl >= 0 && __verif_h.lvl <= 2)
-__CPROVER_requires(v.tag != TAG_HASHMAP)                                   /* hash maps: not in this unit */
+__CPROVER_requires(__verif_h.lvl < 1 || v.tag != TAG_HASHMAP)                 /* hash maps: not in this unit */
 __CPROVER_requires(__verif_h.lvl != 2 || !IS_RC_TAG(v.tag) || v.tag == VERIF_HKIND)      /* case split, call under proof only */
 /* VAL_WF of the argument (the contract text of the step harnesses' stub, VM_RELEASE_REQUIRES): live header, type matches tag */
 __CPROVER_requires(__verif_h.lvl < 1 || !IS_RC_TAG(v.tag) || v.as.obj == NULL || VERIF_FRESH(v.as.obj, REL_SIZE))
-__CPROVER_requires(REL_L1(v) ==> (HDR(v)->obj_type == v.tag && HDR(v)->ref_count == __verif_rc0))
+__CPROVER_requires(REL_L1(v) ==> (HDR(v)->obj_type == v.tag && HDR(v)->ref_count == REL_RC0))
 /* the object under proof: its shape, its element store, the header of the child at the ghost index */
 __CPROVER_requires(REL_L2(v) ==> REL_SHAPE(v))
 #if REL_HAS_STORE
@@ -151,6 +153,7 @@ __CPROVER_requires(REL_L2(v) ==> (__verif_hstore == (void *)REL_STORE(v) && __ve
 __CPROVER_requires(REL_HAS_KID(v) ==> REL_KID(v).tag != TAG_HASHMAP)
 __CPROVER_requires(REL_KID_RC(v) ==> (VERIF_FRESH(REL_KID(v).as.obj, sizeof(VmHeapHeader)) && HDR(REL_KID(v))->obj_type == REL_KID(v).tag))
 __CPROVER_requires(REL_L2(v) ==> __verif_hkidrc == (REL_KID_RC(v) ? 1 : 0))
+__CPROVER_requires(REL_KID_RC(v) ==> HDR(REL_KID(v))->ref_count == __verif_krc0)
 #endif
 /* --- frame --- */
 __CPROVER_assigns(__verif_h;
@@ -168,17 +171,17 @@ __CPROVER_frees(REL_L1(v): v.as.obj
 #endif
                 )
 /* --- postconditions: header level (proved at lvl 2 for every kind, used at lvl 1 as induction hypothesis) --- */
-__CPROVER_ensures((REL_L1(v) && __verif_rc0 >= 2) ==> (HDR(v)->ref_count == __verif_rc0 - 1u && HDR(v)->obj_type == v.tag))   /* exactly -1, not freed */
-__CPROVER_ensures((REL_L1(v) && __verif_rc0 == 0) ==> HDR(v)->ref_count == 0)                                             /* no effect */
-__CPROVER_ensures((REL_L1(v) && __verif_rc0 == 1) ==> __CPROVER_was_freed(v.as.obj))                                      /* freed */
+__CPROVER_ensures(__verif_h.lvl == __CPROVER_old(__verif_h.lvl))                /* the level flag is the caller's again */
+__CPROVER_ensures((REL_L1(v) && REL_RC0 >= 2) ==> (HDR(v)->ref_count == REL_RC0 - 1u && HDR(v)->obj_type == v.tag))   /* exactly -1, not freed */
+__CPROVER_ensures((REL_L1(v) && REL_RC0 == 0) ==> HDR(v)->ref_count == 0)                                         /* no effect */
+__CPROVER_ensures((REL_L1(v) && REL_RC0 == 1) ==> __CPROVER_was_freed(v.as.obj))                                  /* freed */
 /* the heap descriptor stays well-formed; untouched unless an object dies */
 __CPROVER_ensures(heap->intern_table == __CPROVER_old(heap->intern_table) && heap->intern_capacity == __CPROVER_old(heap->intern_capacity))
 __CPROVER_ensures(heap->intern_count <= __CPROVER_old(heap->intern_count))
-__CPROVER_ensures((!REL_L1(v) || __verif_rc0 != 1) ==> (heap->intern_count == __CPROVER_old(heap->intern_count) &&
+__CPROVER_ensures((__verif_h.lvl >= 1 && (!IS_RC(v) || REL_RC0 != 1)) ==> (heap->intern_count == __CPROVER_old(heap->intern_count) &&
                    heap->stats.freed == __CPROVER_old(heap->stats.freed) && heap->stats.num_objects == __CPROVER_old(heap->stats.num_objects) &&
                    heap->stats.allocated == __CPROVER_old(heap->stats.allocated)))
-/* ghost bookkeeping: a release delivered to the child of interest is counted; the level flag is the caller's again */
-__CPROVER_ensures(__verif_h.lvl == __CPROVER_old(__verif_h.lvl))
+/* ghost bookkeeping: a release delivered to the child of interest is counted */
 __CPROVER_ensures(__CPROVER_old(__verif_h.lvl) == 1 ==> __verif_h.kid_calls == __CPROVER_old(__verif_h.kid_calls) + (IS_RC(v) ? 1u : 0u))
 __CPROVER_ensures(__CPROVER_old(__verif_h.lvl) == 0 ==> __verif_h.kid_calls == __CPROVER_old(__verif_h.kid_calls))
 /* --- postconditions: the object under proof --- */
